@@ -315,7 +315,7 @@ def checks(h):
                                       "mut": st.one_of(st.none(), mut)})
     s_opinfo = st.fixed_dictionaries({"kind": st.just("opinfo"), "x": mods, "i": st.integers(0, 20),
                                       "j": st.integers(0, 20), "k": st.integers(0, 3), "dup": st.booleans()})
-    n = h.scale(32, 2500)
+    n = h.scale(32, 300)
     h.hyp("mutants", s_mut, lambda r: run(h, r), n * 2, 1)
     h.hyp("clone_reflexive", s_clone, lambda r: run(h, r), n, 2)
     h.hyp("independent", s_ind, lambda r: run(h, r), n, 3)
